@@ -116,6 +116,7 @@ class SymExec:
         self.st = {}
         self.names = {}       # key -> source name (messages only)
         self.exits = []       # (kind, target, state, value)
+        self.bound0 = {}      # binding id -> the value it was first bound to (the state forgets it at a join)
         self.comp = []        # stack of (i_atom, unit_poly)
         self.trace = []       # events in interpretation order
         self.cond_depth = 0   # number of enclosing joined (unresolved) conditionals
@@ -689,6 +690,7 @@ class SymExec:
                 # a fresh owned buffer takes the binding's name (values are copied)
                 v = Buf(v.name, dict(v.blocks), v.len, v.unit, v.base)
             self.st[key] = v
+            self.bound0.setdefault(key, v)
             if isinstance(v, Poly) and v in (self.TRUE, self.FALSE):
                 fk = (key, v == self.TRUE)
                 cur = self.st.get(FACTS, frozenset())
@@ -1013,8 +1015,15 @@ class SymExec:
         scrut = self.eval(e["scrut"])
         if self.st is None:
             return Poly.atom("never")
-        sel = self.h.select_arms(self, e, scrut) if self.h else None
         arms = e["arms"]
+        gi = guard_chain_if(e)
+        if gi is not None and isinstance(scrut, Poly):
+            # `match v { x if g(x) => A, .., y => Z }`: every pattern takes the whole value, so this is an if / else-if chain
+            for a in arms:
+                if a["pat"].get("k") == "PBind":
+                    self.bind_pat(a["pat"], scrut)
+            return self.e_If(gi)
+        sel = self.h.select_arms(self, e, scrut) if self.h else None
         idxs = sel if sel is not None else list(range(len(arms)))
         self.log("match", node=e, scrut=scrut, sel=sel)
         base = self.st
@@ -2108,6 +2117,21 @@ class SymExec:
             v = self.eval(args[0])
             return opaque("Some", [self._p(v)])
         return NotImplemented
+
+
+def guard_chain_if(e):
+    """the if / else-if chain equivalent to `match v { x if g(x) => A, .., y => Z }` (all patterns irrefutable bindings, every
+    arm but the last guarded); built once per node and cached on it, so that its identity can name a path split"""
+    arms = e.get("arms") or []
+    if not (len(arms) >= 2 and all(a["pat"].get("k") == "PWild" or (a["pat"].get("k") == "PBind" and a["pat"].get("sub") is None) for a in arms)
+            and all(a.get("guard") is not None for a in arms[:-1]) and arms[-1].get("guard") is None):
+        return None
+    if "_guard_if" not in e:
+        node = arms[-1]["body"]
+        for a in reversed(arms[:-1]):
+            node = {"k": "If", "cond": a["guard"], "then": a["body"], "else": node, "ty": e.get("ty"), "sp": a["guard"].get("sp") or e.get("sp"), "mx": e.get("mx"), "_of_id": id(e)}
+        e["_guard_if"] = node
+    return e["_guard_if"]
 
 
 def phi_leaves(v, depth=0):
